@@ -267,8 +267,10 @@ def run(ctx):
             ctx.count(("lm-meta", route, c, m, z, len(data), ttl, au, ag, eu, eg))
             dist["lm-meta"] = dist.get("lm-meta", 0) + 1
             case = dict(route=route, cipher=c, mac=m, zip=z, len=len(data), ttl=ttl, auth_uid=au, auth_gid=ag, euid=eu, egid=eg, data_hex=data[:48].hex())
+            used = "!" if (len(data) + ttl) % 3 == 0 else ""         # a context the application has used before (with failed calls)
+            case["used_context"] = bool(used)
             if route[0] == "L":
-                e = ask("E %s %d %d %d %d %d %d %d %d" % (data.hex() or "-", c, m, z, ttl, au, ag, eu, eg))
+                e = ask("E%s %s %d %d %d %d %d %d %d %d" % (used, data.hex() or "-", c, m, z, ttl, au, ag, eu, eg))
                 if len(e) < 3 or e[1] != "0":
                     fails.append({"why": "round trip broken: munge_encode() of a supported request failed with error %s" % (e[1] if len(e) > 1 else "?"), **case})
                     return
@@ -279,7 +281,7 @@ def run(ctx):
                     return
                 cred = r["data"].rstrip(b"\0")
             if route[1] == "L":
-                f = lm_fields(ask("D %s %d %d" % (cred.hex(), du, dg)))
+                f = lm_fields(ask("D%s %s %d %d" % (used, cred.hex(), du, dg)))
             else:
                 q, _ = rig.decode(cr.d.sock, cred + b"\0", uid=du, gid=dg)
                 if q is None:
@@ -316,7 +318,7 @@ def run(ctx):
         for i, (c, m, z) in enumerate(lm_cases if ctx.thorough else lm_cases[:36]):
             n = rng.choice([0, 1, rng.randrange(2, 64), rng.randrange(64, 3000), rng.randrange(3000, 70000)])
             data = payload(rng, rng.choice(["zeros", "text", "random"]), n)
-            ttl = rng.choice([0, 1, 60, 299, 301, 3599, 3600, 3601, 99999, 2 ** 31 - 1, 2 ** 32 - 1])
+            ttl = rng.choice([0, 1, 60, 299, 301, 3599, 3600, 3601, 99999, 2 ** 31 - 1, 2 ** 31, 2 ** 31 + 1, 3000000000, 2 ** 32 - 2, 2 ** 32 - 1])
             eu, eg = rng.choice([(0, 0), (1000, 1001), (65534, 65533), (2 ** 31 + 5, 2 ** 31 + 6), (2 ** 32 - 2, 2 ** 32 - 3)])
             au, ag, du, dg = rng.choice([(ANY, ANY, 7, 8), (7, ANY, 7, 9), (ANY, 8, 6, 8), (7, 8, 7, 8), (0, 0, 0, 0), (2 ** 31 + 1, 2 ** 31 + 2, 2 ** 31 + 1, 2 ** 31 + 2),
                                          (ANY, ANY, 0, 0)])
